@@ -505,6 +505,9 @@ class BinaryOp(Contract):
                 if d == 3 and tier == 'quick' and other in ('vector', 'array') and s.meth not in ('__add__', '__mul__'):
                     continue
                 out.append({'ndim': d, 'nvdim': nv, 'other': other})
+        # a scalar field combined with a constant vector broadcasts to that many components - for EVERY number of cells, also
+        # when the vector happens to be as long as the (1-d) mesh has cells (n is symbolic: the coincidence is one of the paths)
+        out += [{'ndim': 1, 'nvdim': 1, 'other': 'vector3'}, {'ndim': 2, 'nvdim': 1, 'other': 'vector2'}]
         if not s.reflected:
             out += [{'ndim': 2, 'nvdim': 3, 'other': 'field_other_mesh'}, {'ndim': 2, 'nvdim': 3, 'other': 'field_nvdim2'},
                     {'ndim': 2, 'nvdim': 3, 'other': 'str'}, {'ndim': 2, 'nvdim': 3, 'other': 'vector_len2'}]
@@ -535,6 +538,8 @@ class BinaryOp(Contract):
             other = tuple(inp(E, f'c{j}', 'float') for j in range(nv))
         elif ok == 'vector_len2':
             other = (inp(E, 'c0', 'float'), inp(E, 'c1', 'float'))
+        elif ok in ('vector3', 'vector2'):
+            other = tuple(inp(E, f'c{j}', 'float') for j in range(int(ok[-1])))
         elif ok == 'array':
             other = E.sym_array('o_A', n + [nv], 'float')
         else:
@@ -563,7 +568,7 @@ class BinaryOp(Contract):
         out, ok = field_result_base(E, st, result, ops)
         if not ok:
             return out
-        nv = max(f.attrs['_nvdim'], o.attrs['_nvdim'] if isinstance(o, Obj) else 1)
+        nv = max(f.attrs['_nvdim'], o.attrs['_nvdim'] if isinstance(o, Obj) else (len(o) if isinstance(o, tuple) else 1))
         out.append(('number of components = broadcast of the operands', result.attrs['_nvdim'] == nv))
         idx = cell_index(E, f) + E.skolem([nv], 'c')
         cell, c = idx[:-1], idx[-1]
